@@ -1,4 +1,168 @@
-(* Proofs about the block repository model.  (to be completed) *)
+(* Proofs about the block repository model (property C09): the executable model of
+   internal/storage/blocks.go refines the abstract list-of-headers specification. *)
 From V.lib Require Import Base.
 From V.model Require Import BlockRepo BlockRepoSpec.
 From V.gen Require Import Consts.
+From Coq Require Import ZifyBool ZifyNat.
+
+Local Open Scope Z_scope.
+
+(* ---------------------------------------------------------------------------------------- *)
+(* Arithmetic helpers                                                                        *)
+
+Lemma godiv_div a b : 0 <= a -> 0 < b -> godiv a b = a / b.
+Proof. intros. unfold godiv. apply Z.quot_div_nonneg; lia. Qed.
+
+Lemma gomod_mod a b : 0 <= a -> 0 < b -> gomod a b = a mod b.
+Proof. intros. unfold gomod. apply Z.rem_mod_nonneg; lia. Qed.
+
+Lemma div_bounds a K : 0 < K -> (a / K) * K <= a < (a / K + 1) * K.
+Proof.
+  intros HK. pose proof (Z.div_mod a K ltac:(lia)) as H1.
+  pose proof (Z.mod_pos_bound a K HK) as H2. nia.
+Qed.
+
+Lemma div_unique_bounds a K q : 0 < K -> q * K <= a < (q + 1) * K -> a / K = q.
+Proof.
+  intros HK Hq. symmetry. apply (Z.div_unique a K q (a - q * K)); lia.
+Qed.
+
+Lemma div_nonneg a K : 0 < K -> 0 <= a -> 0 <= a / K.
+Proof. intros. apply Z.div_pos; lia. Qed.
+
+Lemma mul_le_mono_K i f K : 0 < K -> i <= f -> i * K <= f * K.
+Proof. intros. nia. Qed.
+
+Lemma mul_lt_K_inv i f K : 0 < K -> i * K < f * K -> i < f.
+Proof. intros. nia. Qed.
+
+Lemma mod_eq_sub a K : 0 < K -> a mod K = a - (a / K) * K.
+Proof. intros. pose proof (Z.div_mod a K ltac:(lia)). lia. Qed.
+
+(* ---------------------------------------------------------------------------------------- *)
+(* List helpers                                                                              *)
+
+Lemma zlen_nil {A} : zlen (@nil A) = 0.
+Proof. reflexivity. Qed.
+
+Lemma zlen_cons {A} (x : A) l : zlen (x :: l) = 1 + zlen l.
+Proof. unfold zlen. cbn [length]. lia. Qed.
+
+Lemma zlen_app {A} (l k : list A) : zlen (l ++ k) = zlen l + zlen k.
+Proof. unfold zlen. rewrite app_length. lia. Qed.
+
+Lemma zlen_nonneg {A} (l : list A) : 0 <= zlen l.
+Proof. unfold zlen. lia. Qed.
+
+Lemma zlen_pos {A} (l : list A) : l <> [] -> 0 < zlen l.
+Proof. destruct l; [congruence|]. rewrite zlen_cons. pose proof (zlen_nonneg l). lia. Qed.
+
+Lemma zlen_take {A} (l : list A) n : zlen (take n l) = Z.min (Z.of_nat n) (zlen l).
+Proof. unfold zlen. rewrite take_length. lia. Qed.
+
+Lemma zlen_drop {A} (l : list A) n : zlen (drop n l) = Z.max 0 (zlen l - Z.of_nat n).
+Proof. unfold zlen. rewrite drop_length. lia. Qed.
+
+Lemma take_drop_take {A} (k a n : nat) (c : list A) :
+  take k (drop a (take n c)) = take (min k (n - a)) (drop a c).
+Proof.
+  rewrite !take_drop_commute, take_take.
+  destruct (decide (a <= n)%nat) as [Hle|Hgt].
+  - f_equal. f_equal. lia.
+  - rewrite !drop_ge; auto; rewrite take_length; lia.
+Qed.
+
+Lemma index_ok {A} (l : list A) i x : 0 <= i -> l !! Z.to_nat i = Some x -> index l i = Ok x.
+Proof.
+  intros Hi Hl. unfold index. destruct (i <? 0) eqn:E; [lia|]. rewrite Hl. reflexivity.
+Qed.
+
+Lemma last_drop {A} (l : list A) n : (n < length l)%nat -> last (drop n l) = last l.
+Proof.
+  intros Hn. rewrite !last_lookup, lookup_drop, drop_length. f_equal. lia.
+Qed.
+
+(* ---------------------------------------------------------------------------------------- *)
+(* find_id                                                                                   *)
+
+Fixpoint find_from (c : list header) (id i : Z) : option Z :=
+  match c with
+  | [] => None
+  | h :: c' => if hid h =? id then Some i else find_from c' id (i + 1)
+  end.
+
+Lemma find_id_from c id : find_id c id = find_from c id 0.
+Proof.
+  unfold find_id. generalize 0. induction c as [|x c IH]; intros i; [reflexivity|].
+  cbn [find_from]. destruct (hid x =? id); [reflexivity|]. apply IH.
+Qed.
+
+Lemma find_from_app c h id i :
+  find_from (c ++ [h]) id i =
+  match find_from c id i with
+  | Some j => Some j
+  | None => if hid h =? id then Some (i + zlen c) else None
+  end.
+Proof.
+  revert i. induction c as [|x c IH]; intros i; cbn [app find_from].
+  - rewrite zlen_nil. replace (i + 0) with i by lia. reflexivity.
+  - destruct (hid x =? id); [reflexivity|]. rewrite IH, zlen_cons.
+    replace (i + 1 + zlen c) with (i + (1 + zlen c)) by lia. reflexivity.
+Qed.
+
+Lemma find_from_None c id i : find_from c id i = None <-> id ∉ map hid c.
+Proof.
+  revert i. induction c as [|x c IH]; intros i; cbn [map find_from].
+  - split; [intros _; apply not_elem_of_nil|reflexivity].
+  - rewrite not_elem_of_cons. destruct (hid x =? id) eqn:E.
+    + split; [discriminate|]. intros [Hne _]. lia.
+    + rewrite IH. split; [intros Hn; split; [lia|exact Hn]|intros [_ Hn]; exact Hn].
+Qed.
+
+Lemma find_from_Some c id i j :
+  find_from c id i = Some j ->
+  i <= j < i + zlen c /\ exists h, c !! Z.to_nat (j - i) = Some h /\ hid h = id.
+Proof.
+  revert i. induction c as [|x c IH]; intros i; cbn [find_from]; [discriminate|].
+  rewrite zlen_cons. pose proof (zlen_nonneg c) as Hc.
+  destruct (hid x =? id) eqn:E.
+  - intros [= <-]. split; [lia|]. exists x. replace (i - i) with 0 by lia. split; [reflexivity|lia].
+  - intros Hf. apply IH in Hf as [Hb (h & Hl & Hh)]. split; [lia|]. exists h. split; [|exact Hh].
+    replace (Z.to_nat (j - i)) with (S (Z.to_nat (j - (i + 1)))) by lia. exact Hl.
+Qed.
+
+Lemma find_from_nodup c i (j : nat) h :
+  NoDup (map hid c) -> c !! j = Some h -> find_from c (hid h) i = Some (i + Z.of_nat j).
+Proof.
+  revert i j. induction c as [|x c IH]; intros i j Hnd Hl; [discriminate|].
+  cbn [map] in Hnd. apply NoDup_cons in Hnd as [Hx Hnd]. cbn [find_from].
+  destruct j as [|j]; cbn in Hl.
+  - injection Hl as ->. rewrite Z.eqb_refl. f_equal. lia.
+  - destruct (hid x =? hid h) eqn:E.
+    + exfalso. apply Hx. apply Z.eqb_eq in E. rewrite E.
+      apply elem_of_list_fmap_1. eapply elem_of_list_lookup_2; eauto.
+    + rewrite (IH (i + 1) j Hnd Hl). f_equal. lia.
+Qed.
+
+Lemma find_from_take c id i (m : nat) :
+  find_from (take m c) id i =
+  match find_from c id i with
+  | Some j => if j <? i + Z.of_nat m then Some j else None
+  | None => None
+  end.
+Proof.
+  revert i m. induction c as [|x c IH]; intros i m.
+  - rewrite take_nil. reflexivity.
+  - destruct m as [|m].
+    + rewrite take_0. destruct (find_from (x :: c) id i) as [j|] eqn:E; [|reflexivity].
+      apply find_from_Some in E as [Hb _]. destruct (j <? i + Z.of_nat 0) eqn:E2; [lia|reflexivity].
+    + cbn [take find_from]. destruct (hid x =? id).
+      * destruct (i <? i + Z.of_nat (S m)) eqn:E2; [reflexivity|lia].
+      * rewrite IH. destruct (find_from c id (i + 1)) as [j|]; [|reflexivity].
+        replace (i + 1 + Z.of_nat m) with (i + Z.of_nat (S m)) by lia. reflexivity.
+Qed.
+
+Lemma fresh_None c id : fresh c id = true <-> find_id c id = None.
+Proof.
+  unfold fresh. rewrite negb_true_iff, bool_decide_eq_false, <- eq_None_not_Some. reflexivity.
+Qed.
